@@ -27,6 +27,8 @@ pub trait BlsSignatureProof:
 
     /// Create the timestamp based challenge for `y`
     fn generate_timestamp_based_y(u: Self::Signature) -> (<Self::Signature as Group>::Scalar, u64) {
+        #[cfg(blsful_verif)]
+        use crate::verif_hooks::SystemTime;
         let t = SystemTime::now()
             .duration_since(UNIX_EPOCH)
             .unwrap()
@@ -151,6 +153,8 @@ pub trait BlsSignatureProof:
         msg: B,
         dst: D,
     ) -> BlsResult<()> {
+        #[cfg(blsful_verif)]
+        use crate::verif_hooks::SystemTime;
         if let Some(tt) = timeout_ms {
             let now = SystemTime::now();
             let since = UNIX_EPOCH + Duration::from_millis(t);
